@@ -47,7 +47,7 @@ Definition wf_attr (asn4 : bool) (kv : N * aval) : Prop :=
   | VNums l => tc = c_BGPTYPE_CLUSTER_LIST /\ Forall (fun a => a < 4294967296) l /\ (length l <= 63)%nat
   | VComms l => tc = c_BGPTYPE_COMMUNITIES /\ Forall wf_comm l /\ (length l <= 63)%nat
   | VExts l => tc = c_BGPTYPE_EXTENDED_COMMUNITY /\ Forall wf_ext l /\ l <> [] /\ (length l <= 31)%nat
-  | VLarge l => tc = c_BGPTYPE_LARGE_COMMUNITY /\ Forall wf_large l /\ (length l <= 21)%nat
+  | VLarge l => tc = c_BGPTYPE_LARGE_COMMUNITY /\ Forall wf_large l /\ l <> [] /\ (length l <= 21)%nat
   | VHex _ => False
   end.
 
@@ -112,10 +112,10 @@ Proof.
     destruct (extcommunity_roundtrip l Hl Hne Hn) as (raw & E1 & Hlen & E2).
     exists c_ATTR_ExtCommunity_FLAG, raw. unfold construct_attr, parse_attr. eqb_consts.
     rewrite E1, E2. repeat split; try reflexivity. lia.
-  - intros (-> & Hl & Hn).
+  - intros (-> & Hl & Hne & Hn).
     assert (Hlen : len (enc_large l) <= 255).
     { unfold len. rewrite enc_large_flat, length_concat_be, length_concat3 by exact Hl. lia. }
-    destruct (largecommunity_roundtrip l Hl Hlen) as (E1 & E2).
+    destruct (largecommunity_roundtrip l Hl Hne Hlen) as (E1 & E2).
     exists c_ATTR_LargeCommunity_FLAG, (enc_large l). unfold construct_attr, parse_attr. eqb_consts.
     rewrite E1, E2. repeat split; try reflexivity. lia.
   - intros [].
